@@ -806,3 +806,19 @@ def discard_before_state(ctx, mr):
         ctx.ob("C04.discard-before-state", fi.short(), "content-errors-precede-state", ok, detail, f"{fi.module.rel}:{first.lineno}")
     if n_handlers < 5:
         raise AnalysisError(f"C04: only {n_handlers} receive handlers with a state change found (confirmed: 8)")
+    # truncation that leaves the headers intact is only detectable through the payload-length field: it has to be compared
+    # with the octets actually received before a handler changes state
+    pch = P.func(f"{G.ROUTER}.process_common_header")
+    users = [pch] + [h.fi for h in G.receive_handlers(ctx)]
+    checked = False
+    for f in users:
+        for n in ast.walk(f.node):
+            if isinstance(n, ast.Compare):
+                txt = unparse(n)
+                if ".pl" in txt and "len(" in txt:
+                    checked = True
+    ctx.ob("C04.discard-before-state", pch.short(), "payload-length-checked", checked,
+           "the payload-length field is compared with the number of octets received before dispatch" if checked else
+           "the Common Header's PL field is never compared with the octets actually received: a frame that lost the tail of its payload "
+           "(headers intact) is processed as valid - location table and duplicate list updated, packet forwarded - and the intact copy "
+           "arriving later is dropped as a duplicate", pch.loc)
